@@ -1,6 +1,6 @@
 """Black-box strand: run the real binary and the model on scenarios, compare chosen observables."""
 import concurrent.futures as cf
-import os, re, shutil
+import collections, os, re, shutil
 from fractions import Fraction
 from . import chain as K, common as C
 
@@ -274,7 +274,8 @@ def scenario_dump(scn):
             "xorkey": None if scn.xorkey is None else scn.xorkey.hex(), "verbose": scn.verbose, "threads": scn.threads,
             "kvs": [[k.hex(), v.hex()] for k, v in scn.kvs],
             "files": {n: {"size": f["size"], "segs": [[o, d.hex()] for o, d in f["segs"]]} for n, f in scn.files.items()},
-            "extra_files": {n: d.hex() for n, d in scn.extra_files.items()}, "meta": scn.meta}
+            "extra_files": {n: d.hex() for n, d in scn.extra_files.items()}, "meta": scn.meta,
+            "env": {k: ({n: d.hex() for n, d in v.items()} if k == "leftovers" else v) for k, v in scn.env.items()}}
 
 
 def scenario_load(d):
@@ -285,14 +286,107 @@ def scenario_load(d):
     s.files = {n: {"size": f["size"], "segs": [(o, bytes.fromhex(x)) for o, x in f["segs"]]} for n, f in d["files"].items()}
     s.extra_files = {n: bytes.fromhex(x) for n, x in d.get("extra_files", {}).items()}
     s.meta = d.get("meta", {})
+    s.env = {k: ({n: bytes.fromhex(x) for n, x in v.items()} if k == "leftovers" else v) for k, v in d.get("env", {}).items()}
     return s
 
 
-def check(ctx, family, scns, comparators, shared_dirs=None, nontrivial=lambda s, m: True, in_domain=lambda s, m: True):
+# ---- circumstances of a run -------------------------------------------------------------------
+# Every property is stated over the data directory, the coin and the options; nothing in any of them lets the outcome depend on how
+# loud the log is, on where the process was started, on how a path is spelt, on what stdout is attached to, on which filesystem the
+# dump folder is on, on files that other runs left in the dump folder, or on blk files being reached through the symlinks that
+# `resolve_path` supports.  A share of the scenarios of every family is therefore run a second time under one such circumstance and
+# compared with the same model answer by the same comparators.
+
+def _leftovers(s, r):
+    """what an earlier run of ANOTHER callback (failed: .tmp files; successful: final names of another range) leaves in the folder"""
+    other = {"csvdump": "unspent", "unspentcsvdump": "balances", "balances": "blocks"}.get(s.callback, "blocks")
+    lo = {"%s.csv.tmp" % other: b"txid;indexOut;height;value;address\n" + b"ab" * 32 + b";0;1;5;x\n",
+          "%s-%d-%d.csv" % (other, 7000 + r.randrange(100), 9000 + r.randrange(100)): b"left by an earlier run\n",
+          "notes.txt": b"not ours\n"}
+    if r.random() < 0.5:
+        lo["tx_in.csv.tmp" if s.callback != "csvdump" else "balances.csv.tmp"] = b""
+    return lo
+
+
+ENV_KINDS = {
+    "v":        lambda s, r: setattr(s, "verbose", 1) if s.verbose != 1 else setattr(s, "verbose", 2),
+    "vv":       lambda s, r: setattr(s, "verbose", 2),
+    "links":    lambda s, r: s.env.update(links=r.choice(["all", "alternate"])),
+    "cwd":      lambda s, r: s.env.update(cwd=r.choice(["plain", "dot"])),
+    "slash":    lambda s, r: s.env.update(slash=True),
+    "tty":      lambda s, r: s.env.update(tty=True),
+    "shm":      lambda s, r: s.env.update(shm=True),
+    "leftovers": lambda s, r: s.env.update(leftovers=_leftovers(s, r)),
+    "environ":  lambda s, r: s.env.update(environ=r.choice([{"TMPDIR": "/nonexistent-tmp"}, {"RUST_LOG": "trace", "RUST_BACKTRACE": "1"}, {"LANG": "C", "LC_ALL": "C", "TZ": "Pacific/Kiritimati"}, {"HOME": "/nonexistent-home", "COLUMNS": "20", "TERM": "dumb", "NO_COLOR": "1"}])),
+}
+DUMPERS = ("csvdump", "unspentcsvdump", "balances")
+
+
+def env_kinds_for(s):
+    ks = ["v", "vv", "links", "slash", "environ", "tty"]
+    if s.callback in DUMPERS:
+        ks += ["cwd", "shm", "leftovers"]
+    else:
+        ks += ["tty"]       # what these callbacks print IS their result
+    return ks
+
+
+def cmp_leftovers(scn, res, m):
+    bad = getattr(res, "leftovers_damaged", [])
+    return [("files-of-earlier-runs-changed", bad, [])] if bad else []
+
+
+def env_sweep(ctx, family, scns, model, comparators, in_domain, share):
+    import copy
+    r = ctx.sub_rnd("env:" + family)
+    ctx.env_total = getattr(ctx, "env_total", 0)
+    if ctx.env_total < 45:
+        share = max(share, 0.7)       # every property gets a few dozen such runs, however few scenarios its families have
+    picked = []
+    for s, m in zip(scns, model):
+        if s.env or sum(f["size"] for f in s.files.values()) > (1 << 21) or len(s.kvs) > 2000:
+            continue
+        if r.random() < share:
+            picked.append((s, m))
+    if not hasattr(ctx, "env_counter"):
+        ctx.env_counter = collections.Counter()
+    vs = []
+    for s, m in picked:
+        ks = env_kinds_for(s)
+        kind = ks[(ctx.env_counter[s.callback] + ctx.seed) % len(ks)]
+        ctx.env_counter[s.callback] += 1
+        v = copy.copy(s)
+        v.env, v.meta = dict(s.env), dict(s.meta, circumstance=kind)
+        ENV_KINDS[kind](v, r)
+        vs.append((v, m, kind))
+    if not vs:
+        return
+    ctx.env_total += len(vs)
+    with cf.ThreadPoolExecutor(POOL) as ex:
+        res = list(ex.map(lambda t: t[0].run_impl(), vs))
+    for (v, m, kind), rr in zip(vs, res):
+        if kind == "shm" and not K.other_filesystem():
+            ctx.dist["env:shm:no-second-filesystem"] += 1
+            continue
+        diffs = []
+        for c in list(comparators) + [cmp_leftovers]:
+            diffs.extend(c(v, rr, m))
+        ctx.families["circumstance:" + kind] += 1
+        ctx.traces += 1
+        if diffs:
+            ctx.disagree("circumstance:" + kind, dict(describe(v), env={k: (sorted(x) if isinstance(x, dict) and k == "leftovers" else x) for k, x in v.env.items()}, verbose=v.verbose),
+                         {"exit": rr.exit, "stderr": rr.stderr.decode(errors="replace")[-300:], "diffs": [list(map(str, d))[:3] for d in diffs[:5]]},
+                         {"exit": m["exit"], "msg": m.get("msg"), "delivered": m["delivered"][:50]}, in_domain(v, m),
+                         {"scenario": scenario_dump(v), "observable": diffs[0][0]})
+
+
+def check(ctx, family, scns, comparators, shared_dirs=None, nontrivial=lambda s, m: True, in_domain=lambda s, m: True, env_share=None):
     impl, model = run_pairs(scns, shared_dirs)
+    if family != "replay" and not family.startswith("literal:"):
+        env_sweep(ctx, family, scns, model, comparators, in_domain, env_share if env_share is not None else getattr(ctx, "env_share", 0.35))
     for s, r, m in zip(scns, impl, model):
         diffs = []
-        for c in comparators:
+        for c in list(comparators) + ([cmp_leftovers] if s.env.get("leftovers") else []):
             diffs.extend(c(s, r, m))
         key = (family, s.coin, s.callback, s.start, s.stop, s.verify, s.xorkey, len(s.kvs), tuple(sorted((n, f["size"]) for n, f in s.files.items())), tuple(sorted(s.meta.items())) if all(isinstance(v, (int, str, bool, type(None))) for v in s.meta.values()) else id(s))
         ctx.mark(key, nontrivial(s, m))
